@@ -283,6 +283,8 @@ func (w *World) CheckProperty(prop, tier string, timeoutMs int, dump string, ver
 				o := &Obligation{Name: im.Allowed[0] + "." + callee + "/impl-methods#1", Func: im.Allowed[0] + "." + callee, Kind: "impl-methods", Tags: []string{prop},
 					Status: "discharged", Solver: "ssa-scan", Text: fmt.Sprintf("impl_methods %s: %d implementations under the interface contract", callee, found),
 					File: im.File, Line: im.Line}
+				r.Structural = append(r.Structural, w.implFrameFailures...)
+				w.implFrameFailures = nil
 				if found <= 0 {
 					o.Status = "failed"
 					o.Detail = map[string]string{"why": "no interface contract, no such interface, or no repository implementation: the rule checks nothing"}
@@ -798,6 +800,18 @@ func (w *World) bindImplMethods(im *CallersRule, callee, prop string, inNames ma
 				cc.Index = len(own.Ensures)
 				own.Ensures = append(own.Ensures, &cc)
 			}
+			// the frame a dynamic call assumes covers what the implementation may change: an implementation without
+			// a frame of its own is verified under the interface's; one with a frame must stay inside it
+			if ifc.HasMod && !own.HasMod {
+				own.HasMod, own.Pure, own.Allocates = true, ifc.Pure, ifc.Allocates
+				own.Modifies, own.Preserves = ifc.Modifies, ifc.Preserves
+			} else if ifc.HasMod {
+				if why := w.frameInside(own, ifc); why != "" {
+					w.implFrameFailures = append(w.implFrameFailures, &Obligation{Name: n + "/impl-frame#1", Func: n, Kind: "impl-frame", Tags: []string{prop},
+						Status: "failed", Solver: "ssa-scan", Text: "the frame of the implementation stays inside the frame of " + callee,
+						Detail: map[string]string{"why": why}, File: own.File, Line: own.Line})
+				}
+			}
 			own.Tags[prop] = true
 			if !inNames[n] {
 				inNames[n] = true
@@ -805,7 +819,7 @@ func (w *World) bindImplMethods(im *CallersRule, callee, prop string, inNames ma
 			}
 			continue
 		}
-		nc := &FuncContract{Name: n, Pkg: FuncPkgPath(fn), Pure: ifc.Pure, Allocates: ifc.Allocates, HasMod: ifc.HasMod, Modifies: ifc.Modifies,
+		nc := &FuncContract{Name: n, Pkg: FuncPkgPath(fn), Pure: ifc.Pure, Allocates: ifc.Allocates, HasMod: ifc.HasMod, Modifies: ifc.Modifies, Preserves: ifc.Preserves, Blocks: ifc.Blocks,
 			Tags: map[string]bool{prop: true}, Nilable: map[string]bool{}, File: im.File, Line: im.Line}
 		for _, c := range ifc.Ensures {
 			cc := *c
@@ -829,4 +843,37 @@ func (w *World) implTarget(n string) bool {
 		}
 	}
 	return false
+}
+
+// frameInside reports why the frame of an implementation is not contained in the frame of the interface method ("" if it is).
+func (w *World) frameInside(own, ifc *FuncContract) string {
+	in := func(l []string, x string) bool {
+		for _, y := range l {
+			if y == x {
+				return true
+			}
+		}
+		return false
+	}
+	if own.Blocks && !ifc.Blocks {
+		return "the implementation may block, the interface contract does not say so"
+	}
+	for _, m := range own.Modifies {
+		if in(ifc.Modifies, m) {
+			continue
+		}
+		_, ghost := w.C.Ghosts[m]
+		if !ghost && in(ifc.Modifies, "heap") && !in(ifc.Preserves, m) {
+			continue // a part of the heap, not one the interface promises to preserve
+		}
+		return "modifies " + m + " is not allowed by the interface contract"
+	}
+	if in(own.Modifies, "heap") {
+		for _, p := range ifc.Preserves {
+			if !in(own.Preserves, p) {
+				return "the interface contract preserves " + p + ", the implementation does not"
+			}
+		}
+	}
+	return ""
 }
